@@ -6,6 +6,11 @@
 (* Mode "build" (C09): every sequence of <= M constructor descriptors with *)
 (*   payloads from a markup-heavy pool; the bytes written must read back   *)
 (*   (reader + attribute + escape specs) as the same logical events.       *)
+(* Mode "elem" (C09, C19): ElementWriter - every list of <= M operations   *)
+(*   (with_attribute, with_attributes, new_line) on an element created at  *)
+(*   nesting depth 0..2 of a plain or indenting writer, finished with      *)
+(*   write_empty / write_text_content / write_cdata_content /              *)
+(*   write_pi_content.                                                     *)
 (* Sequences are grown one element at a time so TLC's workers share them.  *)
 (***************************************************************************)
 EXTENDS Writer, TLC, Json
@@ -47,6 +52,19 @@ Descs ==
     \cup {<<"elem_text", NA, <<<<K1, <<38>>>>>>, v>> : v \in {<<60>>, <<>>, <<32, 97, 32>>}}
     \cup {<<"elem_empty", NE, <<<<K1, <<34>>>>>>>>, <<"elem_cdata", NA, <<>>, <<93, 93, 62>>>>, <<"elem_pi", NA, <<>>, <<116, 32, 100>>>>}
 
+\* ---------------------------------------------------------------- elem
+EOps == {<<"attr", K1, v>> : v \in {<<49>>, <<34>>, <<60>>}} \cup {<<"attr", K2, <<>>>>}
+        \cup {<<"attrs", <<<<K1, <<49>>>>, <<K2, <<38>>>>>>>>, <<"attrs", <<<<NE, <<50>>>>>>>>, <<"attrs", <<>>>>, <<"nl">>}
+ENames == {NA, <<97, 98, 99>>}
+EFins == {<<"empty">>, <<"text", <<60>>>>, <<"cdata", <<99>>>>, <<"pi", <<112>>>>}
+EDepths == {0, 1, 2}
+ElemIndents == Indents \cup {NoIndent}
+\* the events around and of the element: d Start events, the element, d End events
+ElemEvs(ops, name, fin, d, ind) ==
+    LET cur == IF ind.on THEN d * ind.size ELSE 0
+        tag == EWOps(EWInit(name), ops, 1, ind, cur).buf IN
+    [i \in 1..d |-> [k |-> "Start", b |-> <<114>>]] \o EWFinish(tag, name, fin) \o [i \in 1..d |-> [k |-> "End", b |-> <<114>>]]
+
 VARIABLES seq
 wvars == <<seq>>
 Init == seq = <<>>
@@ -54,14 +72,17 @@ Next == /\ Len(seq) < M
         /\ IF Mode = "indent"
            THEN /\ (IF seq = <<>> THEN TRUE ELSE Last(seq).k # "Eof")
                 /\ \E e \in KindEvents : seq' = Append(seq, e)
+           ELSE IF Mode = "elem" THEN \E o \in EOps : seq' = Append(seq, o)
            ELSE \E d \in Descs : seq' = Append(seq, d)
 Spec == Init /\ [][Next]_wvars
 
-Evs == IF Mode = "indent" THEN seq ELSE Flatten([i \in 1..Len(seq) |-> EventsOf(seq[i])])
+Evs == IF Mode = "indent" THEN seq ELSE IF Mode = "elem" THEN <<>> ELSE Flatten([i \in 1..Len(seq) |-> EventsOf(seq[i])])
 Plain == Written(Evs, NoIndent)
 
 \* machine = declarative statement of C19
 Inv_Indent == Mode = "indent" => \A ind \in Indents : Written(Evs, ind) = Indented(Evs, ind)
+\* ... and therefore conforms to the literal reading of C19
+Inv_IndentConforms == Mode = "indent" => \A ind \in Indents : IndentConforms(Evs, Written(Evs, ind), ind)
 \* plain writing is the concatenation of the renderings
 Inv_Plain == Plain = Flatten([i \in 1..Len(Evs) |-> RenderW(Evs[i])])
 \* read-back: dropping whitespace-only text gives the same events; payloads identical
@@ -75,10 +96,31 @@ Inv_Build ==
     Mode = "build" =>
         ReadBack(Plain) = Coalesce(Flatten([i \in 1..Len(seq) |-> LogicalOf(seq[i])]))
 
+\* ElementWriter: (a) without indentation the tag is the plain constructor's; (b) with indentation the operations only add
+\* white space: the tag reads back (attribute grammar) as the same name and attribute list, and the whole output reads back as
+\* the plain output does once whitespace-only text is dropped; (c) a tag never contains white space other than between attributes
+NoNl(ops) == SelectSeq(ops, LAMBDA o : o[1] # "nl")
+Inv_Elem ==
+    Mode = "elem" =>
+        \A name \in ENames, d \in EDepths, ind \in ElemIndents :
+            LET cur == IF ind.on THEN d * ind.size ELSE 0
+                ew == EWOps(EWInit(name), seq, 1, ind, cur)
+                plainTag == MkStart(name, EWLogical(seq)) IN
+            /\ (~ind.on => ew.buf = plainTag)
+            /\ SubSeq(ew.buf, 1, ew.nlen) = name
+            /\ AttrPairs(ew.buf, ew.nlen) = EWLogical(seq)
+            /\ EWOps(EWInit(name), NoNl(seq), 1, ind, cur).buf = plainTag
+            /\ \A fin \in EFins :
+                  DropWs(ReadBack(Written(ElemEvs(seq, name, fin, d, ind), ind))) = DropWs(ReadBack(Written(ElemEvs(seq, name, fin, d, NoIndent), NoIndent)))
+
 EvRow(e) == <<e.k, e.b>>
 Inv_Emit ==
     Emit =>
-        IF Mode = "indent"
+        IF Mode = "elem"
+        THEN PrintT(<<"REPLAY", ToJson([eops |-> seq,
+                                        cases |-> {<<name, fin, d, IF ind.on THEN 1 ELSE 0, ind.ch, ind.size, Written(ElemEvs(seq, name, fin, d, ind), ind)>> :
+                                                   name \in ENames, fin \in EFins, d \in EDepths, ind \in ElemIndents}])>>)
+        ELSE IF Mode = "indent"
         THEN PrintT(<<"REPLAY", ToJson([evs |-> [i \in 1..Len(Evs) |-> EvRow(Evs[i])], plain |-> Plain,
                                         outs |-> {<<ind.ch, ind.size, Written(Evs, ind)>> : ind \in Indents}])>>)
         ELSE PrintT(<<"REPLAY", ToJson([ops |-> seq, plain |-> Plain,
